@@ -136,7 +136,8 @@ class ExactAlgorithmCplex(ExactAlgorithmBase, PairwiseBasedAlgorithm):
                 # (and infinite loop obviously)
                 else:
                     # update the ranking to return
-                    new_dataset: Dataset = dataset.sub_problem_from_ids(scc_i_set)
+                    new_dataset: Dataset = dataset._sub_problem_keeping_all_rankings(
+                        {id_elements[id_elem] for id_elem in scc_i_set})
                     rankings: List[Ranking] = self._compute_consensus_rankings_with_optim(new_dataset, scoring_scheme,
                                                                                           False, True)
                     for bucket in rankings[0]:
